@@ -180,16 +180,25 @@ type tables struct {
 	trs []*logdb.Transfer
 }
 
-func (r *recorder) observe(ev trace.Ev, ldb *logdb.LogDB, st *runStat) tables {
+func (r *recorder) observe(ev trace.Ev, ldb *logdb.LogDB, st *runStat) (tables, *realErr) {
 	ctx := context.Background()
-	evs, err := ldb.FilterEvents(ctx, &logdb.EventFilter{})
-	must(err)
-	trs, err := ldb.FilterTransfers(ctx, &logdb.TransferFilter{})
-	must(err)
-	ne, err := ldb.FilterEvents(ctx, nil)
-	must(err)
-	nt, err := ldb.FilterTransfers(ctx, nil)
-	must(err)
+	var evs, ne []*logdb.Event
+	var trs, nt []*logdb.Transfer
+	if re := guard("read-tables", func() (err error) {
+		if evs, err = ldb.FilterEvents(ctx, &logdb.EventFilter{}); err != nil {
+			return
+		}
+		if trs, err = ldb.FilterTransfers(ctx, &logdb.TransferFilter{}); err != nil {
+			return
+		}
+		if ne, err = ldb.FilterEvents(ctx, nil); err != nil {
+			return
+		}
+		nt, err = ldb.FilterTransfers(ctx, nil)
+		return
+	}); re != nil {
+		return tables{}, re
+	}
 	E, T := r.eventRows(evs), r.transferRows(trs)
 	nE, nT := r.eventRows(ne), r.transferRows(nt)
 	ev["E"], ev["T"] = E, T
@@ -207,7 +216,7 @@ func (r *recorder) observe(ev trace.Ev, ldb *logdb.LogDB, st *runStat) tables {
 	if len(T) > st.MaxRows {
 		st.MaxRows = len(T)
 	}
-	return tables{evs, trs}
+	return tables{evs, trs}, nil
 }
 
 // ---- pools of values the query generator draws from ------------------------------------------------------------------
